@@ -17,6 +17,7 @@ import itertools
 from collections import OrderedDict
 
 from .core import AnalysisError
+from .core import model_token
 from .absint import (TZ, Interp, Obj, ClassVal, AbsRaise, Unsupported, Native, NativeObj, Closure)
 from .oracles import rfc
 
@@ -436,7 +437,7 @@ def deviations(ctx, max_len=None):
     disappears when names are upper-cased (a pure letter-case defect)."""
     if max_len is None:
         max_len = 4 if ctx.thorough else 3
-    key = (id(ctx.model), max_len)
+    key = (model_token(ctx.model), max_len)
     if key in _CACHE:
         return _CACHE[key]
     n, bad = explore(ctx, max_len)
@@ -494,7 +495,7 @@ def tzid_probe(ctx):
     """For every registered property name: does the parse loop hand the
     TZID parameter to the decoder?  -> {NAME: 'forwarded' | 'dropped' |
     'raises <cls>'}, probed with and without a TZID parameter."""
-    key = (id(ctx.model), "tzid")
+    key = (model_token(ctx.model), "tzid")
     if key in _CACHE:
         return _CACHE[key]
     model = ctx.model
